@@ -561,6 +561,8 @@ class PE(object):
       return BoundPrim(obj, name)
     if isinstance(obj, (list, dict, str, tuple)):
       return BoundPrim(obj, name)
+    if hasattr(obj, "gram_op") or hasattr(obj, "gram_method"):
+      return BoundPrim(obj, name)
     if isinstance(obj, Func) and name == "__name__":
       return obj.name.split(".")[-1]
     if isinstance(obj, (int, Fraction)):
@@ -575,6 +577,10 @@ class PE(object):
     for f in reversed(frames):
       if name in f:
         return f[name]
+      if name in f.get("__localnames__", ()) and name not in \
+          f.get("__globals__", ()):
+        raise PyRaise("UnboundLocalError",
+                      "local variable %r referenced before assignment" % name)
     return self.lookup_global(name, module)
 
   def eval(self, node, frames, module):
@@ -871,6 +877,9 @@ class PE(object):
     self.err("cannot use %r as a tensor operand" % (v,))
 
   def binop(self, op, a, b):
+    if hasattr(a, "gram_op") or hasattr(b, "gram_op"):
+      from . import gram
+      return gram.binop(self, op, a, b)
     if isinstance(a, Tensor) or isinstance(b, Tensor):
       ta, tb = self.as_term(a), self.as_term(b)
       sh = a.shape if isinstance(a, Tensor) and a.shape is not None else (
@@ -1049,6 +1058,9 @@ class PE(object):
                                else "?"))
       return self.call_ext(fn.name, args, kwargs, node)
     if isinstance(fn, BoundPrim):
+      if hasattr(fn.recv, "gram_op") or hasattr(fn.recv, "gram_method"):
+        from . import gram
+        return gram.method(self, fn.recv, fn.name, args, kwargs)
       return self.call_bound(fn, args, kwargs, node)
     if isinstance(fn, Obj):
       owner, f = fn.cls.find_method("__call__")
@@ -1123,6 +1135,7 @@ class PE(object):
       elif kwargs:
         raise PyRaise("TypeError", "%s() got an unexpected keyword argument "
                       "%s" % (f.name, sorted(kwargs)[0]))
+      local["__localnames__"] = local_names(node)
       frames = list(f.closure) + [local]
       if isinstance(node, ast.Lambda):
         return self.eval(node.body, frames, f.module)
@@ -1141,7 +1154,8 @@ class PE(object):
     if isinstance(r, Tensor):
       if n == "set_shape":
         return None
-      if n in ("numpy", "eval", "read_value", "value"):
+      if n in ("numpy", "eval", "read_value", "value", "tolist", "copy",
+               "astype", "item"):
         return r
       if n == "assign":
         return None
@@ -1256,8 +1270,38 @@ class ModuleRef(object):
     self.module = module
 
 
+_LOCALS_CACHE = {}
+
+
+def local_names(fn):
+  """Names bound by assignment in the function's own scope."""
+  r = _LOCALS_CACHE.get(id(fn))
+  if r is not None:
+    return r[1]
+  names = set()
+
+  def visit(n):
+    for ch in ast.iter_child_nodes(n):
+      if isinstance(ch, (ast.FunctionDef, ast.AsyncFunctionDef)):
+        names.add(ch.name)
+        continue
+      if isinstance(ch, (ast.Lambda, ast.ClassDef, ast.ListComp, ast.SetComp,
+                         ast.DictComp, ast.GeneratorExp)):
+        continue
+      if isinstance(ch, ast.Name) and isinstance(ch.ctx, ast.Store):
+        names.add(ch.id)
+      visit(ch)
+  if not isinstance(fn, ast.Lambda):
+    for st in fn.body:
+      if isinstance(st, ast.Name) and isinstance(st.ctx, ast.Store):
+        names.add(st.id)
+      visit(ast.Module(body=[st], type_ignores=[]))
+  _LOCALS_CACHE[id(fn)] = (fn, frozenset(names))
+  return _LOCALS_CACHE[id(fn)][1]
+
+
 BUILTINS = {
-    "isinstance", "len", "range", "list", "tuple", "dict", "float", "int",
+    "globals", "isinstance", "len", "range", "list", "tuple", "dict", "float", "int",
     "str", "abs", "max", "min", "pow", "hasattr", "getattr", "zip",
     "enumerate", "callable", "bool", "print", "sum", "sorted", "type", "any",
     "all", "round", "set", "super", "object", "ValueError", "TypeError",
